@@ -87,7 +87,9 @@ pub fn run(ctx: &Ctx) -> Rep {
     }
     rep.self_check("model: 7462 classes, category populations, endpoints", true);
     let seed = ctx.seed;
-    let all_orders = ctx.thorough();
+    // every slot order of every hand: thorough, and the fast leg of quick (2.2 G calls, ~5 s); the checked leg of
+    // quick uses the sampled orders below
+    let all_orders = ctx.thorough() || (ctx.leg != "checked" && !ctx.smoke());
     let perms: Vec<[u8; 8]> = (0..factorial(5)).map(|k| nth_permutation(5, k)).collect();
     let us = if ctx.smoke() { 331 } else { 1 };
     let s = par_subsets::<5, X, _, _>(ctx, us, mk, |st, c, _| {
